@@ -33,5 +33,16 @@ DefinedOut(i) ==
    hi |-> Hi(Encode(m)), lo |-> Lo(Encode(m)), expect |-> Expected(Encode(m))]
 
 ASSUME PrintT("@@DEFINED " \o ToJson([i \in 1..Len(Defined) |-> DefinedOut(i)]))
+\* Outside the model's "one frame = one read unit": on a STREAM socket the bytes of an oversized frame beyond the
+\* read size are what the next read returns.  One probe: an oversized frame whose payload carries, exactly at
+\* the read boundary, a chunk that is by itself a well-formed full-size unit of type inner.  Emitted for the
+\* replayer to OBSERVE what the second read makes of it (reported, not judged).
+TailProbe(t, inner) ==
+  [type |-> t, hi |-> 255, lo |-> 255, declared |-> MaxLen, carried |-> MaxLen, fill |-> 7,
+   at |-> ReadSize - HeaderSize,                                   \* payload offset of the inner chunk
+   inner |-> [type |-> inner, hi |-> (ReadSize - HeaderSize) \div 256, lo |-> (ReadSize - HeaderSize) % 256],
+   first |-> Expected([type |-> t, hdr |-> HeaderSize, declared |-> MaxLen, carried |-> MaxLen, fill |-> 7])]
+
+ASSUME PrintT("@@TAIL " \o ToJson({TailProbe(1, i) : i \in {7, 9}}))
 ASSUME PrintT("@@RT " \o ToJson({RTOut(t, l) : t \in {1, 9, 10, 255}, l \in RTLens}))
 =============================================================================
